@@ -200,7 +200,7 @@ def run_and_validate(run, sessions, label, keys=False, timeouts_reproduce=False,
     write_ndjson(sp, sessions)
     by_id = {s["id"]: s for s in sessions}
     t0 = __import__("time").time()
-    faults = run_driver(run, binary, sp, tp)
+    faults = run_driver(run, binary, sp, tp, extra=(("-calltimeout", "6s") if timeouts_reproduce else ()))
     run.log("%s: driver ran %d sessions in %.1fs" % (label, len(sessions), __import__("time").time() - t0))
     if faults:
         run.log("%d session(s) killed or hung the driver process" % len(faults))
@@ -222,7 +222,7 @@ def run_and_validate(run, sessions, label, keys=False, timeouts_reproduce=False,
                     if os.path.exists(p):
                         os.remove(p)
                 write_ndjson(rs, [sess])
-                run_driver(run, binary, rs, rt, nshards=1, extra=("-calltimeout", "200s"), timeout=3600)
+                run_driver(run, binary, rs, rt, nshards=1, extra=("-calltimeout", "60s"), timeout=3600)
                 n_to += 1 if any(e.get("ev") == "timeout" for e in read_ndjson(rt)) else 0
             if n_to < 2:
                 raise Infra("session %s hit the driver watchdog but did not hang again twice alone (not a verdict)" % sid)
